@@ -87,6 +87,16 @@ pub fn plan(property: &str) -> Option<Plan> {
         "C09" => (vec![stage("fault", "C09", 8_000, 100_000)], "fault_enumeration"),
         "C10" => (vec![stage("seq", "C10", 20_000, 300_000)], "exploration"),
         "C07" => (vec![stage("conc", "C07", 60_000, 1_500_000)], "exploration"),
+        "C18" => (
+            vec![
+                stage("conc", "C18", 40_000, 800_000),
+                stage("fault", "C09", 3_000, 40_000),
+                stage("live", "C19", 2_500, 30_000),
+                stage("crash", "C03", 1_500, 20_000),
+                stage("conc", "C11", 10_000, 200_000),
+            ],
+            "exploration",
+        ),
         "C08" => (vec![stage("conc", "C08", 40_000, 1_000_000)], "exploration"),
         "C11" => (vec![stage("seq", "C11", 24_000, 300_000), stage("conc", "C11", 30_000, 600_000), stage("crash", "C11", 2_500, 30_000)], "exploration"),
         "C12" => (vec![stage("seq", "C12", 24_000, 300_000)], "exploration"),
